@@ -1,6 +1,6 @@
 (* C08_lex.v — C08 (accepted iff documented), TEXT LEVEL: what the tokenizer makes of a text. *)
 From Coq Require Import String NArith ZArith List Bool.
-From BP Require Import TotalBase LexBase Lex LexSpec LexCase LexProofs.
+From BP Require Import TotalBase LexBase Lex LexSpec LexCase LexProofs LexClass.
 From BPGen Require Import GenLexer.
 Import ListNotations.
 
@@ -12,7 +12,83 @@ Theorem C08_lex_tiling : forall uw s its e rem,
 Proof. exact lex_tiling. Qed.
 Print Assumptions C08_lex_tiling.
 
-Example C08_lex_nonvacuous :
+(* only characters of t_ignore are skipped; every token has a non-empty lexeme; positions are consecutive *)
+Theorem C08_lex_items_wellformed : forall uw s its e rem,
+  lex_run uw s = (its, e, rem) -> pos_ok 0 its /\ line_ok 1 its.
+Proof. intros uw s its e rem H. apply lex_run_inv in H. split; apply H. Qed.
+Print Assumptions C08_lex_items_wellformed.
+
+(* classification at one position of the master regex: a reserved word standing at word
+   boundaries on both sides is matched by its own rule — not by t_IDENTIFIER — and the match
+   ends exactly after the word *)
+Theorem C08_lex_reserved_word_typed : forall uw fuel p post W,
+  In W [W_bool; W_byte; W_true; W_false; W_yes; W_no] ->
+  word_opt uw p = false -> word_opt uw (hd_error post) = false ->
+  exists r s', first_rule uw fuel lex_rules (p, W ++ post) = Some (r, s')
+               /\ cps_eqb (r_name r) T_IDENTIFIER = false /\ snd s' = post.
+Proof. exact reserved_word_typed. Qed.
+Print Assumptions C08_lex_reserved_word_typed.
+
+(* ... and the guard is needed: directly after a digit there is no word boundary, "1bool" is
+   INT_LITERAL 1 followed by IDENTIFIER "bool" (replayed on the implementation on every run:
+   boundary catalogue `typeword-prefixed`) *)
+Theorem C08_lex_reserved_word_never_identifier_refuted : forall uw,
+  map (fun t => (t_type t, t_val t)) (fst (lex uw [49; 98; 111; 111; 108]%N))
+  = [(T_INT_LITERAL, VInt 1); (T_IDENTIFIER, VText W_bool)].
+Proof. exact reserved_word_identifier_witness. Qed.
+Print Assumptions C08_lex_reserved_word_never_identifier_refuted.
+
+(* the 8 keywords never come out as IDENTIFIER (t_IDENTIFIER re-types them), in any context *)
+Theorem C08_lex_keyword_retyped : forall name a lx line ty v l,
+  a_kw a = true -> cps_mem lx lex_keywords = true ->
+  run_action name (Some a) lx line = Ok (ty, v, l) -> ty = map cp_upper lx /\ cps_eqb ty T_IDENTIFIER = false.
+Proof. exact keyword_retyped. Qed.
+Print Assumptions C08_lex_keyword_retyped.
+
+(* "//" starts a comment in every context; a "/" not followed by "/" is DIVIDE *)
+Theorem C08_lex_slashes_comment : forall uw fuel p post,
+  exists r s', first_rule uw fuel lex_rules (p, 47%N :: 47%N :: post) = Some (r, s') /\ r_name r = T_COMMENT.
+Proof. exact slashes_comment. Qed.
+Print Assumptions C08_lex_slashes_comment.
+
+Theorem C08_lex_lone_slash_divide : forall uw fuel p post,
+  match post with c :: _ => N.eqb c 47 = false | [] => True end ->
+  first_rule uw fuel lex_rules (p, 47%N :: post) = Some (mkRule T_DIVIDE rx_t_DIVIDE None, (Some 47%N, post)).
+Proof. exact lone_slash_divide. Qed.
+Print Assumptions C08_lex_lone_slash_divide.
+
+(* the vocabulary of the direct scanner (LexSpec) is the one in lexer.py *)
+Theorem C08_lex_vocabulary :
+  lex_ignore = S_ignore /\ lex_literals = S_literals /\ lex_keywords = S_keywords
+  /\ map (fun e => (fst e, snd e)) escaping_chars = map (fun e => (fst e, [snd e])) S_escapes
+  /\ py_int_max_str_digits = S_max_digits.
+Proof. repeat split. Qed.
+Print Assumptions C08_lex_vocabulary.
+
+(* ---- non-vacuity / worked instances (the general statements behind these — maximal munch of the
+   class rules, uintN/intN for every N, the printer round trip — are evaluated per generated input
+   against LexSpec.spec_lex on every run, not proved: partial) -------------------------------- *)
+Definition types_of (s : list N) := map t_type (fst (lex uni_word s)).
+Definition vals_of (s : list N) := map t_val (fst (lex uni_word s)).
+
+Example C08_lex_nonvacuous_tiling :
   let s := [117;105;110;116;56;32;120;61;34;97;92;34;98;34;47;47;99;10;48;120;49;70]%N in
   items_text (fst (fst (lex_run uni_word s))) = s.
 Proof. vm_compute. reflexivity. Qed.
+
+(* boolean / uint8x / protocol are single IDENTIFIERs; 0x1F is one HEX_LITERAL with value 31 *)
+Example C08_lex_word_boundary_instances :
+  types_of (cps_of_string "boolean uint8x protocol") = [T_IDENTIFIER; T_IDENTIFIER; T_IDENTIFIER]
+  /\ types_of (cps_of_string "bool uint8 proto") = [T_BOOL_TYPE; T_UINT_TYPE; T_PROTO]
+  /\ (types_of (cps_of_string "0x1F"), vals_of (cps_of_string "0x1F")) = ([T_HEX_LITERAL], [VInt 31])
+  /\ types_of (cps_of_string "0xg") = [T_INT_LITERAL; T_IDENTIFIER].
+Proof. vm_compute. repeat split. Qed.
+
+(* printing a token list with single spaces and lexing it back: same types and values *)
+Example C08_lex_roundtrip_instance :
+  let s := cps_of_string "message M { uint3 a_b = 12 ; bool [ 4 ] c = 0x1F } const K = true" in
+  types_of s = [T_MESSAGE; T_IDENTIFIER; [123%N]; T_UINT_TYPE; T_IDENTIFIER; [61%N]; T_INT_LITERAL; [59%N];
+                T_BOOL_TYPE; [91%N]; T_INT_LITERAL; [93%N]; T_IDENTIFIER; [61%N]; T_HEX_LITERAL; [125%N];
+                T_CONST; T_IDENTIFIER; [61%N]; T_BOOL_LITERAL]
+  /\ snd (lex uni_word s) = LDone.
+Proof. vm_compute. split; reflexivity. Qed.
